@@ -514,7 +514,6 @@ func c03Overlapping(run *ev.Run, tier string, st *digStats) {
 	run.Set("packages_built_while_others_were_in_flight", built)
 }
 
-
 // c03SourceDateEpochSet: SOURCE_DATE_EPOCH is exported (as reproducible-build
 // environments do) and differs from the configured mtime, or is the only time
 // given: what the package states about its own members still matches them.
